@@ -474,6 +474,11 @@ func Generate(r *rand.Rand, cfg GenCfg, rec *Recorder) *Scenario {
 					rec.Crit(err.Error())
 				}
 				ep.Crit = true
+				if KeepCritEvent {
+					// search mode: keep the event at which the instance gave up, so that the DAG can be replayed elsewhere
+					ep.Events = append(ep.Events, ev)
+					break
+				}
 				delete(s.Input, te.ID())
 				delete(s.ByID, ev.ID)
 				break
@@ -504,6 +509,9 @@ func Generate(r *rand.Rand, cfg GenCfg, rec *Recorder) *Scenario {
 	}
 	return s
 }
+
+// KeepCritEvent is set by the offline search tool only.
+var KeepCritEvent bool
 
 type sealInfo struct {
 	fn   SealFn
